@@ -56,6 +56,7 @@ def check(rep, model, tier):
     rep.assumptions += ['check_param_range(p, label, (lo, hi)) raises ValueError iff p < lo or p > hi; check_param_options iff p not in options (neurodsp/utils/checks.py read)',
                         'fs == 0 is rejected by neurodsp filter design, not by a bycycle check (not decided)', 'exceptions raised inside dependencies are out of scope']
     must_check(rep, model)
+    checked_flow(rep, model)
     options(rep, model)
     exhaustive(rep, model)
     guards(rep, model)
@@ -79,6 +80,34 @@ def allowed_precondition(c):
     if c[0] == 'cmp0' and len(c[2][2]) == 1 and c[2][2][0][0][0] == 'len':
         return True
     return False
+
+
+def checked_flow(rep, model):
+    """the amplitude method has two consumers of min_n_cycles and only one of them (the run filter) range-checks it: whatever value the unchecked
+    consumer (the sample-wise detector inside compute_burst_fraction) receives must be the value the checked one receives"""
+    rep.rule('CHECKED-FLOW', 'in compute_features(amp), for every way of supplying min_n_cycles (burst options and / or thresholds), the value handed to the sample-wise '
+                             'detector is the value handed to detect_bursts_amp, whose run filter range-checks it: no min_n_cycles is used without having been validated')
+    fn = model.find('compute_features')
+    site = f'{fn.path}:{fn.node.lineno} compute_features[amp]'
+    B, Tm = ('param', 'B_min_n_cycles'), ('param', 'T_min_n_cycles')
+    bks = {'None': NONE, 'with': ('dict', (('min_n_cycles', B),))}
+    tks = {'without': ('dict', (('burst_fraction_threshold', ('param', 'bft')),)), 'with': ('dict', (('burst_fraction_threshold', ('param', 'bft')), ('min_n_cycles', Tm)))}
+    for bn, bk in bks.items():
+        for tn, tk in tks.items():
+            inst = f'burst_kwargs={bn}:thresholds={tn}'
+            res, ctx = E.run(model, 'compute_features', {'burst_method': C('amp'), 'burst_kwargs': bk, 'threshold_kwargs': tk}, no_inline=E.HEAVY,
+                             kinds={'fs': 'num', 'f_range': 'tuple'})
+            e1, e2 = E.calls_to(ctx, 'compute_burst_fraction'), E.calls_to(ctx, 'detect_bursts_amp')
+            if len(e1) != 1 or len(e2) != 1:
+                rep.violation('CHECKED-FLOW', inst, site, expected='one call each of compute_burst_fraction and detect_bursts_amp', found=f'{len(e1)} / {len(e2)} calls')
+                continue
+            v1 = E.effective(model, 'compute_burst_fraction', e1[0], 'min_n_cycles')
+            v2 = E.effective(model, 'detect_bursts_amp', e2[0], 'min_n_cycles')
+            if v1 == v2:
+                rep.ok('CHECKED-FLOW', inst, site, found=f'detector and range-checked run filter both receive {T.show(v1)}')
+            else:
+                rep.violation('CHECKED-FLOW', inst, site, expected='the sample-wise detector receives the value that is range-checked',
+                              found=f'detector gets {T.show(v1)} (never validated), run filter checks {T.show(v2)}')
 
 
 def must_check(rep, model):
